@@ -91,6 +91,7 @@ static E1Config makeCfg(const std::string &prop, Family fam, bool directed, bool
     if (small) c.statelessDepth = (prop == "C16") ? 3 : (labelled ? 3 : 4);
     if (small || variant == "n1") c.silentSuffix = 2;
     c.silentReduced = tier != "thorough";
+    c.observeEveryTransition = (c.maxDepth >= 0 || c.maxN <= 2) && !(prop == "C16" && tier != "thorough" && c.maxN <= 2 && labelled) && !(prop == "C06" && c.maxN > 2 && tier != "thorough");
     c.mergeDifferential = (small || variant == "n1" || variant == "n2tiny") && !(prop == "C16" && tier != "thorough");
     if (prop == "C16" && tier != "thorough") c.silentSuffixStates = 1500;
     return c;
